@@ -35,16 +35,19 @@ CONSTANTS
 
 VARIABLE stack  \* sequence of [srt, e, dep, nn]
 
-AllSorts == {"int", "str", "lint", "lstr", "dict", "obj", "exc", "call", "path"}
-ListOf(s) == IF s = "int" THEN "lint" ELSE "lstr"
-Elems == {"int", "str"}
+AllSorts == {"int", "str", "lint", "lstr", "llint", "dict", "obj", "exc", "call", "path"}
+\* sorts whose values can be the elements of a list sort: lists of ints, of texts, and of lists of ints (so that
+\* AllMatch(AnyMatch(m)), MatchesListwise([AnyMatch(m), ...]) etc. are typable)
+ListOf(s) == IF s = "int" THEN "lint" ELSE IF s = "str" THEN "lstr" ELSE "llint"
+Elems == {"int", "str", "lint"}
 
 \* number of Wrap steps needed to turn a matcher of sort s into one of sort t (99: impossible); used to prune
 \* stacks that could never be combined within the depth bound
 Dist(s, t) ==
     IF s = t THEN 0
     ELSE IF s = "int" /\ t \in {"lint", "dict", "obj", "exc", "str"} THEN 1
-    ELSE IF s = "int" /\ t \in {"call", "lstr", "path"} THEN 2
+    ELSE IF s = "int" /\ t \in {"call", "lstr", "path", "llint"} THEN 2
+    ELSE IF s = "lint" /\ t = "llint" THEN 1
     ELSE IF s = "str" /\ t \in {"lstr", "path"} THEN 1
     ELSE IF s = "lstr" /\ t = "path" THEN 1
     ELSE IF s = "exc" /\ t = "call" THEN 1
@@ -78,7 +81,7 @@ Wrapped(w, t) ==
          [] w = "LenList"   -> IF s = "int" THEN <<"lint", PreE("len", e)>> ELSE <<>>
          [] w = "LenDict"   -> IF s = "int" THEN <<"dict", PreE("len", e)>> ELSE <<>>
          [] w = "Sum"       -> IF s = "int" THEN <<"lint", PreE("sum", e)>> ELSE <<>>
-         [] w = "Rev"       -> IF s \in {"str", "lint", "lstr"} THEN <<s, PreE("rev", e)>> ELSE <<>>
+         [] w = "Rev"       -> IF s \in {"str", "lint", "lstr", "llint"} THEN <<s, PreE("rev", e)>> ELSE <<>>
          [] w = "ExcM"      -> IF s = "int" THEN <<"exc", ExcME(<<"BX">>, e)>> ELSE <<>>
          [] w = "Raises"    -> IF s = "exc" THEN <<"call", RaisesE(e)>> ELSE <<>>
          [] w = "Struct1"   -> IF s = "int" THEN <<"obj", StructE(<< <<"y", e>> >>)>> ELSE <<>>
@@ -204,6 +207,26 @@ SetwisePermutationInvariant ==
             /\ \A pm \in Permutations(DOMAIN lv.l) : Sem(SetwiseE(ms), ListV(PermuteSeq(lv.l, pm))) = r
             /\ r = B(Hall(ms, lv.l))
             /\ Sem(ListwiseE(ms, FALSE), lv) = T => r = T
+
+\* MatchesAny() never matches and MatchesAll() always matches: they are the units of MatchesAny / MatchesAll and
+\* each other's negation (the empty cases of the De Morgan laws); a combinator over them behaves as over Never / Always
+NoneE == AnyE(<<>>)
+EveryE == AllE(<<>>, FALSE)
+UnitInvariant ==
+    stack # <<>> =>
+        \A v \in Dom(Top.e, Top.srt) :
+            /\ Sem(NoneE, v) = F /\ Sem(EveryE, v) = T /\ Sem(AllE(<<>>, TRUE), v) = T
+            /\ Sem(NotE(NoneE), v) = Sem(EveryE, v) /\ Sem(NotE(EveryE), v) = Sem(NoneE, v)
+            /\ Sem(AnyE(<<Top.e, NoneE>>), v) = Sem(Top.e, v)
+            /\ Sem(AnyE(<<NoneE, Top.e>>), v) = Sem(Top.e, v)
+            /\ Sem(AllE(<<Top.e, EveryE>>, FALSE), v) = Sem(Top.e, v)
+            /\ Sem(AllE(<<EveryE, Top.e>>, TRUE), v) = Sem(Top.e, v)
+            /\ Top.srt \in Elems =>
+                   \A lv \in ValSet(ListOf(Top.srt)) :
+                       /\ Sem(AllMatchE(NoneE), lv) = B(lv.l = <<>>)
+                       /\ Sem(AnyMatchE(NoneE), lv) = F
+                       /\ Sem(AllMatchE(EveryE), lv) = T
+                       /\ Sem(ListwiseE(<<NoneE>>, FALSE), lv) = F
 
 \* MatchesDict = ContainsDict /\ ContainedByDict
 DictSplitInvariant ==
